@@ -62,6 +62,10 @@ MAP_PROGS = [
 ]
 
 ELEMS = ["b", "a", "c", "ab"]
+# expected results for the 3-element set <<'b', 'a', 'c'>> (sorted enumeration)
+SORTED_RESULT = {"[...s]": "['a', 'b', 'c']", "list(s)": "['a', 'b', 'c']", "def [a, b] = s; [a, b]": "['a', 'b']",
+                 "def a = 1; def b = 2; [a, b] = s; [a, b]": "['a', 'b']", "[x for x in s]": "['a', 'b', 'c']",
+                 "def f(a, b, c) [a, b, c]; f(...s)": "['a', 'b', 'c']"}
 # mixed scalars: sorted order across kinds must still be one fixed order
 MIXED = [[1, "pear", "b", 10], [2, "2", "apple"], ["x", 5, None], [1.5, "1.5", 3], [True, "TRUE", 0]]
 MIXED_PROGS = ["[...s]", "list(s)", "string(s)", "sorted(list(s))", "[x for x in s]", "def r = []; for x in s do append(r, x) end; r",
@@ -187,8 +191,16 @@ def run(ctx, cell):
                 nondet.disable()
             ctx.check(ref == got, key + ":depends-on-set-iteration-order",
                       lambda: {"program": text, "canonical_order": ref, "other_order": got})
+            if text in SORTED_RESULT and cell["i"] >= 0 and n == 3:
+                # destructuring / spreading / converting a set yields its elements in sorted order
+                ctx.check(ref[:2] == ["ok", SORTED_RESULT[text]], key + ":not-in-sorted-order",
+                          lambda: {"program": text, "got": ref, "expected": SORTED_RESULT[text]})
             return ["done"]
-        if ctx.inputs.get("__replay__"):
+        if text in SORTED_RESULT and cell["i"] >= 0 and n == 3:
+            ref = observe(text, set_env(n))
+            ctx.check(ref[:2] == ["ok", SORTED_RESULT[text]], key + ":not-in-sorted-order",
+                      {"program": text, "got": ref, "expected": SORTED_RESULT[text]})
+        if ctx.inputs.get("__replay__") and "depends-on" in str(ctx.inputs.get("__replay__")):
             outs = hash_seed_outputs(text, n, range(32))
             if len(outs) > 1:
                 ctx.fail(key + ":depends-on-set-iteration-order",
